@@ -183,6 +183,33 @@ def opassign_programs():
     return out
 
 
+def adjacent_programs():
+    """an assignment statement directly followed by a statement that begins by reading a variable, for every ordered pair of
+    variables over all storage kinds (parameter, local, local captured by an inner lambda, capture of an enclosing function's
+    local/parameter, module variable) — slot numbers and capture indices coincide for several pairs — x 3 assignment forms
+    x 3 following statement shapes; afterwards every variable is printed"""
+    V = lambda n: ["var", n]
+    N = lambda x: ["num", x]
+    names = ["p0", "p1", "l0", "l1", "b0", "b1", "oc0", "oc1", "oc2", "q0", "m0", "m1"]
+    out = []
+    for x in names:
+        for y in names:
+            for form in ("const", "self", "op"):
+                asg = {"const": ["expr", ["assign", x, N(5)]], "self": ["expr", ["assign", x, ["bin", "+", V(x), N(1)]]], "op": ["expr", ["opassign", "+", x, N(2)]]}[form]
+                for shape in ("let", "if", "assign"):
+                    nxt = {"let": [["let", "r", ["bin", "+", V(y), N(1000)]], ["print", [["str", "r"], V("r")]]],
+                           "if": [["if", ["bin", ">", V(y), N(250)], [["print", [["str", "big"]]]], [["print", [["str", "small"]]]]]],
+                           "assign": [["expr", ["assign", "r2", V(y)]], ["print", [["str", "r2"], V("r2")]]]}[shape]
+                    inner = [["let", "l0", N(300)], ["let", "l1", N(301)], ["let", "b0", N(400)], ["let", "b1", N(401)], ["let", "r2", N(0)],
+                             ["let", "peek", ["lambda", [], [["return", ["bin", "+", V("b0"), V("b1")]]], False]],
+                             ["let", "t", ["bin", "+", ["bin", "+", ["bin", "+", V("oc0"), V("oc1")], V("oc2")], V("q0")]],
+                             asg] + nxt + [["print", [V(n) for n in names] + [["call", V("peek"), []], V("t")]], ["return", V(x)]]
+                    outer = [["let", "oc0", N(200)], ["let", "oc1", N(201)], ["let", "oc2", N(202)], ["fn", "inner", ["p0", "p1"], inner],
+                             ["print", [["str", "ret"], ["call", V("inner"), [N(1), N(2)]]]], ["print", [V("oc0"), V("oc1"), V("oc2"), V("q0"), V("q1")]], ["return", N(0)]]
+                    out.append([["let", "m0", N(100)], ["let", "m1", N(101)], ["fn", "outer", ["q0", "q1"], outer], ["expr", ["call", V("outer"), [N(500), N(501)]]], ["print", [V("m0"), V("m1")]]])
+    return out
+
+
 def elseif_programs():
     out = []
     for x in range(0, 5):
@@ -225,6 +252,8 @@ class C01(Check):
             yield ("stmt", p, None, (LAYOUTS + ["typed"]) if th else ["min", "comments", "typed"])
         for p in literal_programs() + opassign_programs() + elseif_programs():
             yield ("stmt", p, None, ["min", "full", "comments", "typed"])
+        for p in adjacent_programs():
+            yield ("stmt", p, None, ["min", "comments"])
 
     def describe(self, spec):
         if spec[0] == "expr":
